@@ -13,6 +13,10 @@ mod rnglayer;
 mod rec;
 mod rngs;
 mod util;
+mod wire;
+
+#[global_allocator]
+static GLOBAL: wire::Tracking = wire::Tracking;
 
 use std::collections::HashMap;
 use std::io::Write;
@@ -88,6 +92,17 @@ fn real_main() {
         "c19" => {
             let thorough = a.get("tier").map(|t| t == "thorough").unwrap_or(false);
             write_events(&a["out"], &rnglayer::run_c19(seed, thorough));
+        }
+        "c15" | "c16" => {
+            let thorough = a.get("tier").map(|t| t == "thorough").unwrap_or(false);
+            wire::parent(&cmd, seed, thorough, &a["out"]);
+        }
+        "wire-worker" => {
+            let thorough = a.get("tier").map(|t| t == "thorough").unwrap_or(false);
+            let start: usize = a.get("start").and_then(|s| s.parse().ok()).unwrap_or(0);
+            let modulus: usize = a.get("mod").and_then(|s| s.parse().ok()).unwrap_or(1);
+            let rem: usize = a.get("rem").and_then(|s| s.parse().ok()).unwrap_or(0);
+            wire::worker(&a["which"], seed, thorough, start, &a["out"], modulus, rem);
         }
         "psig" => {
             let thorough = a.get("tier").map(|t| t == "thorough").unwrap_or(false);
